@@ -4,7 +4,7 @@ func branch(pc ProgramCounter, b ProgramCounter, C bool, bitmask Bitmask, instru
 	switch {
 	case !C:
 		return ExitContinue, pc
-	case !bitmask.IsStartOfBasicBlock(b) && instruction.isOpcodeValid(b):
+	case !bitmask.IsStartOfBasicBlock(b):
 		return ExitPanic, pc
 	default:
 		return ExitContinue, b
@@ -23,8 +23,8 @@ func djump(pc ProgramCounter, a uint32, jumpTable JumpTable, bitmask Bitmask) (E
 	index := a/ZA - 1 // GP,  if  ZA > 1, index = ZA*index
 	dest, _, err := ReadUintFixed(jumpTable.Data[index*jumpTable.Length:], int(jumpTable.Length))
 	if err != nil {
-		// memory corruption?
-		panic(err.Error())
+		// a jump-table entry width the reader cannot decode (z > 8): no valid target
+		return ExitPanic, pc
 	}
 
 	newPC := ProgramCounter(dest)
